@@ -295,6 +295,8 @@ impl State for FileState {
         } else {
             self.current_index.fetch_add(1, Ordering::SeqCst) + 1
         };
+        #[cfg(iggy_verif)]
+        crate::verif::point("state.apply.allocated", index).await;
         let term = self.term.load(Ordering::SeqCst);
         let current_leader = self.current_leader.load(Ordering::SeqCst);
         let version = self.version;
@@ -358,6 +360,8 @@ impl State for FileState {
                     bytes.len()
                 )
             })?;
+        #[cfg(iggy_verif)]
+        crate::verif::point("state.apply.appended", index).await;
         debug!("Applied state entry: {entry}");
         Ok(())
     }
